@@ -24,19 +24,23 @@ Open Scope Z_scope.
 
 (* ---- packetAccumulator.add ---- *)
 
+(* case analysis on every boolean test either side performs; each case must then be the same pair *)
+Ltac pool_atom :=
+  match goal with
+  | |- context [isSameAsPrevious ?a ?b] => destruct (isSameAsPrevious a b)
+  | |- context [hasDiscontinuity ?a ?b] => destruct (hasDiscontinuity a b)
+  | |- context [hasCounterDiscontinuity ?a ?b] => destruct (hasCounterDiscontinuity a b)
+  | |- context [PacketHeader_PayloadUnitStartIndicator ?a] => destruct (PacketHeader_PayloadUnitStartIndicator a)
+  | |- context [Z.eqb ?a ?b] => destruct (Z.eqb_spec a b)
+  | |- context [pm_mem ?a ?b] => destruct (pm_mem a b)
+  | |- context [is_psi_complete ?l] => destruct (is_psi_complete l)
+  end.
+Ltac pool_cases := repeat (cbn [andb orb negb app]; pool_atom); cbn [andb orb negb app];
+  try (exfalso; congruence); reflexivity.
+
 Lemma acc_add_is_generated pm pid q p :
   acc_add pm pid q p = packetAccumulator_add is_psi_complete pid (Some (pm_mem pm)) q p.
-Proof.
-  unfold acc_add, packetAccumulator_add, resets, pusi.
-  destruct (isSameAsPrevious q p); [reflexivity|].
-  destruct (hasDiscontinuity q p); cbn [andb];
-    destruct (PacketHeader_PayloadUnitStartIndicator (Packet_Header p)); cbn [negb orb andb];
-    try destruct (hasCounterDiscontinuity q p); cbn [app];
-    destruct (pid =? C_PIDPAT); cbn [orb andb];
-    try destruct (pm_mem pm pid); cbn [orb andb];
-    repeat match goal with |- context [is_psi_complete ?l] => destruct (is_psi_complete l) end;
-    reflexivity.
-Qed.
+Proof. unfold acc_add, packetAccumulator_add, resets, pusi. pool_cases. Qed.
 
 (* a nil program map (a pool built outside a Demuxer, as the unit tests do): nothing is ever flushed early,
    whatever the PID — the accumulator behaves as on a PID that is neither the PAT's nor a registered PMT's *)
@@ -44,11 +48,7 @@ Lemma generated_add_nil_map pid q p :
   packetAccumulator_add is_psi_complete pid None q p = acc_add [] 8191 q p.
 Proof.
   unfold acc_add, packetAccumulator_add, resets, pusi. cbn [pm_mem existsb orb andb].
-  change (8191 =? C_PIDPAT) with false. cbn [orb andb].
-  destruct (isSameAsPrevious q p); [reflexivity|].
-  destruct (hasDiscontinuity q p); cbn [andb];
-    destruct (PacketHeader_PayloadUnitStartIndicator (Packet_Header p)); cbn [negb orb andb];
-    try destruct (hasCounterDiscontinuity q p); reflexivity.
+  change (8191 =? C_PIDPAT) with false. pool_cases.
 Qed.
 
 (* ---- the map of accumulators as the model's association list ---- *)
@@ -157,10 +157,11 @@ Proof.
   rewrite gen_get_head, gen_delete_head.
   cbn [odflt gen_acc packetAccumulator_q].
   destruct q as [|x q'].
-  - cbn [length Z.of_nat]. change (0 >? 0) with false. cbv iota.
-    apply (IH Rr). reflexivity.
-  - assert (E : (Z.of_nat (length (x :: q')) >? 0) = true) by (cbn [length]; lia).
-    rewrite E. reflexivity.
+  - (* an empty queue: the test on its length is false, the loop goes on *)
+    match goal with |- context [if ?c then _ else _] => let v := eval vm_compute in c in change c with v end.
+    cbv iota. apply (IH Rr). reflexivity.
+  - match goal with |- context [if ?c then _ else _] => replace c with true by (cbn [length]; lia) end.
+    reflexivity.
 Qed.
 
 Lemma pool_dump_is_generated pm bpm pl : keys_in_range pl ->
